@@ -14,7 +14,7 @@ THEOREMS = [
 ]
 PENDING = ['abort as a fault (C04 machinery)']
 RULE = ('all assignments of <=3 plug classes to <=3 phases + test_start, fault positions enumerated: constructor raises '
-        'for each class, tearDown raises / hangs (abandoned after plug_teardown_timeout_s=0.05 s), a phase fails '
+        'for each class, tearDown raises / hangs / hangs and cannot be killed (abandoned after plug_teardown_timeout_s=0.05 s), a phase fails '
         '(exception, STOP, timeout) at each position, terminal test_start; plus random trees with plugs; compared: full '
         'event log (constructors, bodies, diagnosers, tearDowns, callbacks), records; instance identity seen by phases')
 ASSUMPTIONS = ['the iteration order of the plug-type set is taken from the real run (a parameter of the model)',
@@ -97,7 +97,7 @@ def gen_cases(rng, tier):
       if tier == 'quick' and k % 4 != rng.randrange(4):
         continue
       r = rng.derive(k)
-      fault = r.choice(['none', 'none', 'ctor', 'ctor', 'td_raise', 'td_hang', 'phase', 'start_terminal', 'two_ctor'])
+      fault = r.choice(['none', 'none', 'ctor', 'ctor', 'td_raise', 'td_hang', 'td_stuck', 'phase', 'start_terminal', 'two_ctor'])
       spec = {str(c): {} for c in classes}
       raw = ['cont', 'cont', 'cont']
       start_raw = 'cont'
@@ -110,6 +110,8 @@ def gen_cases(rng, tier):
         spec[str(r.choice(classes))]['td'] = 'raise'
       elif fault == 'td_hang':
         spec[str(r.choice(classes))]['td'] = 'hang'
+      elif fault == 'td_stuck':
+        spec[str(r.choice(classes))]['td'] = 'stuck'
       elif fault == 'phase':
         raw[r.randrange(3)] = r.choice(raws[1:] if k % 9 == 0 else ['exc', 'stop', 'failcont'])
       elif fault == 'start_terminal':
